@@ -668,6 +668,9 @@ fn query_battery(ctx: &mut Ctx, s: &mut S, full: bool) {
     let n1 = s.ones.len();
     let n0 = s.zeros.len();
     for o in ["parts", "len", "num_ones", "num_zeros", "count_ones"] {
+        if o == "parts" && s.len > 40_000 && !ctx.rng.chance(1, 8) {
+            continue; // the dump is O(len): on large vectors only a sample
+        }
         exec(ctx, s, o);
     }
     let mut ps: Vec<usize> = vec![0, 1, len / 2, len.saturating_sub(1), len, len + 1, len + 64, len + 513];
@@ -755,10 +758,17 @@ pub fn run(ctx: &mut Ctx) {
             (1 << 17, vec![5, 70_000, 70_001, (1 << 17) - 1]),
             (200_003, vec![0, 1, 2, 3, 66_000, 132_500, 199_000, 200_002]),
             (1 << 20, (0..40).map(|i| i * 26_000 + (i % 7)).collect()),
+            // 1100 ones, one every 300 bits: two full inventory spans of more than 131072 bits
+            // (Select9's explicit 64-bit class with a non-zero span start)
+            (329_757, (0..1100).map(|i| 7 + 300 * i).collect()),
+            (65_537, vec![0]),
+            (65_538, vec![0, 65_537]),
+            (65_537, vec![0, 65_536]),
         ];
         let acfg: Vec<(&str, usize, usize)> = vec![
             ("sa", 3, 0), ("sa", 4, 1), ("sa", 6, 2), ("sa", 2, 0), ("sza", 3, 1), ("sa_new", 0, 3),
             ("sac", 3, 1), ("sac", 5, 2), ("sac", 12, 3), ("szac", 3, 1), ("sza_sa", 3, 1), ("sa_span", 8192, 2),
+            ("sel9", 0, 0), ("sza_sel9", 3, 1), ("ss", 0, 8), ("ss", 4, 1), ("szs", 1, 8), ("szs_ss", 2, 4), ("rank9", 0, 0),
         ];
         for (len, ones) in &big {
             for polarity in [false, true] {
@@ -785,13 +795,13 @@ pub fn run(ctx: &mut Ctx) {
         }
     }
     // seeded part
-    let rounds = if thorough { 400 } else { 40 };
-    let max_len = if thorough { 300_000 } else { 70_000 };
+    let rounds = if thorough { 150 } else { 40 };
+    let max_len = if thorough { 200_000 } else { 70_000 };
     for _ in 0..rounds {
         let (len, ws, shape) = gen_bits(ctx, max_len);
         ctx.stat(&format!("shape:{}", shape));
         // each vector is tried with a seeded subset of the configurations
-        let k = if thorough { cfgs.len() } else { 24 };
+        let k = if thorough { 60 } else { 24 };
         for _ in 0..k {
             let (sid, p1, p2) = if thorough && false {
                 unreachable!()
